@@ -31,13 +31,16 @@ followed by the terminating condition.  Chunks may be empty (a `(0, nil)` read).
 structure Base where
   chunks : List Bytes
   term : Term
+  /-- the read that returns the last segment also reports the end (`(n > 0, io.EOF)` / `(n > 0, err)`), as
+  proxy-protocol conns may; `false`: the end is reported by a separate empty read, as TCP does -/
+  lastWithTerm : Bool
 deriving Repr, DecidableEq
 
 /-- one `Read` call: `(data, err)`; Go readers may return both. -/
 structure RRes where
   data : Bytes
   err : Option Term
-deriving Repr
+deriving Repr, DecidableEq
 
 def Base.flat (b : Base) : Bytes := b.chunks.flatten
 
@@ -46,7 +49,9 @@ def Base.read (n : Nat) (b : Base) : RRes × Base :=
   match b.chunks with
   | [] => (⟨[], some b.term⟩, b)
   | c :: cs =>
-    if c.length ≤ n then (⟨c, none⟩, { b with chunks := cs })
+    if c.length ≤ n then
+      if cs.isEmpty && b.lastWithTerm then (⟨c, some b.term⟩, { b with chunks := [] })
+      else (⟨c, none⟩, { b with chunks := cs })
     else (⟨c.take n, none⟩, { b with chunks := c.drop n :: cs })
 
 /-- the wrapper that `handleConn` hands to the relay as the client side -/
